@@ -8,7 +8,7 @@ PROP = ['C02_OffsetNeverDrops', 'C02_MinNeverDrops', 'C02_RaiseStrictlyHigher', 
 def check(run):
     ctlfam.model(run, INV, PROP, nonvacuity=['NV_NoRaise'])
     traces = ctlfam.drive_and_validate(run, 'C02', INV, PROP, n_hist=run.pick(480, 8000), hist_len=run.pick(60, 120),
-                                       replay_num=run.pick(150, 1500), replay_depth=14)
+                                       replay_num=run.pick(150, 1500), replay_depth=14, trace_only=['C01_ConfiguredLimits'])
     # Run mode: the real controller.Run (start-up path included: attach, limits, the two goroutines) behind stalling plants
     import vlib
     rtraces = run.drive('TestDriveC10Run', 16, lambda i: dict(VERIF_SEED=run.seed * 1000 + 400 + i, VERIF_N=run.pick(3, 60)), 'c02run', timeout=3000)
